@@ -58,7 +58,7 @@ func vpmExpandEnv(s string) string {
 
 //vp:property C14
 //vp:set k 3 4
-//vp:bounds K requests (quick 3, thorough 4) over three session identifiers (two of them differing by a trailing blank only); each request is one of {negotiate, authenticate for a 2-character user name with symbolic characters, undecodable base64, a non-NTLM byte string, empty message}; user database {"ab","ef": non-empty passwords, "cd": empty password, "gh": a password with a "$" in it}; the client's proof was computed from an arbitrary password of {empty, ab's, ef's, another, gh's} under the name it sends or under ab's/ef's name, against the challenge of an arbitrary server session created so far or against the empty challenge; the library may panic inside ProcessAuthenticateMessage, before or after it verified the proof; cached contexts may or may not expire between requests
+//vp:bounds K requests (quick 3, thorough 4) over three session identifiers (two of them differing by a trailing blank only); each request is one of {negotiate, authenticate for a 2-character user name with symbolic characters and with or without a domain name, undecodable base64, a non-NTLM byte string, empty message}; user database {"ab","ef": non-empty passwords, "cd": empty password, "gh": a password with a "$" in it}; the client's proof was computed from an arbitrary password of {empty, ab's, ef's, another, gh's} under the name it sends or under ab's/ef's name, against the challenge of an arbitrary server session created so far or against the empty challenge; the library may panic inside ProcessAuthenticateMessage, before or after it verified the proof; cached contexts may or may not expire between requests
 //vp:assume go-ntlm's ProcessAuthenticateMessage compares against the response key it derived at the session's FIRST authenticate message (fetchResponseKeys caches it) and this session's challenge; go-cache contract
 //vp:reach authenticated challenged refused
 func VP_C14_history() {
@@ -85,7 +85,11 @@ func VP_C14_history() {
 			c0, c1 := vpU8("u0-"+is), vpU8("u1-"+is)
 			vpAssume(vpAnd(c0 < 0x80, c1 < 0x80))
 			user = string([]byte{c0, c1})
-			vpWire[text] = vpAuthenticateMsg([]byte{c0, 0, c1, 0})
+			var domain16 []byte
+			if vpBool("names-a-domain-" + is) {
+				domain16 = []byte{'C', 0} // mstsc with CORP\user or .\user
+			}
+			vpWire[text] = vpAuthenticateMsgFull([]byte{c0, 0, c1, 0}, domain16, 0)
 			// what the client computed its proof from: any of the passwords around, under the name it
 			// sends or under another account's name (an attacker need not be consistent)
 			vpMsgUser = user
@@ -120,7 +124,7 @@ func VP_C14_history() {
 			want := map[string]string{"ab": "pw-ab", "ef": "pw-ef", "gh": "p$w"}[user]
 			vpAssert(want != "", "authenticated-user-is-configured-with-a-non-empty-password")
 			if s != nil {
-				vpAssert(s.pw == want && s.user == user, "verified-against-the-configured-password-of-the-named-user")
+				vpAssert(s.keyPw == want && s.keyUser == user, "verified-against-the-configured-password-of-the-named-user")
 				vpAssert(vpClientSess == s.id, "proof-was-computed-against-this-sessions-challenge")
 			}
 			vpAssert(vpProofPwId == vpPwId(want), "client-proved-knowledge-of-the-named-users-password")
